@@ -72,12 +72,14 @@ def shards(tier, seed):
                  "fault_rounds": 1 if 1 <= i <= 3 else 0,
                  "late": [12.5] if i in (4, 5) else [],
                  "slowsend_rounds": 1 if i in (5, 6, 7) else 0,
+                 "fatal_rounds": 2 if i in (3, 4, 6, 7) else 0,
                  "uihb_tail": [12.5] if i == 2 else []} for i in range(8)]
     slow = {0: [6.5], 1: [12.0], 2: [32.0], 3: [62.0], 4: [125.0]}
     return [{"seed": seed * 100 + i, "rounds": 60, "max_clients": 16, "per_client": 4,
              "slow": slow.get(i, []), "fault_rounds": 6 if i >= 5 else 0,
              "late": [10.5, 12.5, 30.0, 61.0] if i >= 5 else [],
-             "slowsend_rounds": 3, "uihb_tail": [12.5, 21.0] if i < 5 else []}
+             "slowsend_rounds": 3, "fatal_rounds": 8,
+             "uihb_tail": [12.5, 21.0] if i < 5 else []}
             for i in range(16)]
 
 
@@ -199,7 +201,7 @@ def expected_from_apdus(kind, apdus):
 
 
 def run_round(acc, spec, rnd, rng, slow=None, fault=None, late=None, slowsend=False,
-              uihb_tail=None):
+              uihb_tail=None, fatal=None):
     """fault: {"after": k, "efail": j, "kind": ...} - the link fails at the k-th exchange
     of the round and the next j reconnections find no device; clients keep sending for
     some seconds, so that any repair work done outside a request (a background retry)
@@ -247,7 +249,7 @@ def run_round(acc, spec, rnd, rng, slow=None, fault=None, late=None, slowsend=Fa
                 time.sleep(slow / 9.0)
             elif slowsend:
                 time.sleep(0.004 + delay_rng.random() * 0.008)
-            elif fault:
+            elif fault or fatal:
                 time.sleep(0.002 + delay_rng.random() * 0.006)
             else:
                 time.sleep(delay_rng.random() * 0.002)
@@ -335,6 +337,14 @@ def run_round(acc, spec, rnd, rng, slow=None, fault=None, late=None, slowsend=Fa
                     time.sleep(0.7)
                     s.bus.enumerate_fail = 0
                 threading.Thread(target=replug, daemon=True).start()
+
+        if fatal:
+            # fatal: one request ends in a way that makes the manager shut down (the device
+            # answers a getPubKey / sign with a status word that is not a powHSM one) while
+            # other clients are connected and waiting: whatever the manager does on its way
+            # out, it does not touch the device next to a request being served
+            from ..simdev.transport import Fault
+            s.bus.arm_cmd({fatal["cmd"]: Fault("sw", sw=fatal["sw"])})
 
         def client(c):
             try:
@@ -486,6 +496,9 @@ def run_round(acc, spec, rnd, rng, slow=None, fault=None, late=None, slowsend=Fa
             else:
                 acc.count("replies_matched")
             continue
+        if fatal and reply.get("errorcode") not in (0, 1):
+            acc.count("error_replies_in_rounds_ended_by_a_fatal_request")
+            continue
         if fault and reply.get("errorcode") == -905:
             # the faulted request and those that found no device while reconnecting
             acc.count("device_error_replies_in_fault_rounds")
@@ -550,6 +563,11 @@ def run_shard(spec, acc):
     for k, d in enumerate(spec.get("late", [])):
         acc.count("late_answer_rounds_over_tcp")
         run_round(acc, spec, 3000 + k, rng, late=d)
+    for k in range(spec.get("fatal_rounds", 0)):
+        acc.count("rounds_with_a_fatal_request")
+        run_round(acc, dict(spec, max_clients=max(4, spec["max_clients"])), 6000 + k, rng,
+                  fatal={"cmd": rng.choice([0x04, 0x04, 0x02]),
+                         "sw": rng.choice([0x6E00, 0x6D02, 0x6F00])})
     for k in range(spec.get("fault_rounds", 0)):
         acc.count("link_fault_rounds")
         run_round(acc, spec, 2000 + k, rng, fault={
